@@ -44,6 +44,7 @@ class Contract(object):
         self.caller_view_ = []
         self.split_depth = None      # explore sub-trees below this decision depth in parallel
         self.log_calls = False       # call sites append (name, args, result) to the ghost call log
+        self.force_modular = False   # external stub: used through its summary even when everything else is inlined
         self.call_cases = {}         # (callee qualname, requires name) -> {label: guard(f of the caller)}
 
     # --- DSL ---------------------------------------------------------------
